@@ -76,14 +76,14 @@ func EncodeIP6(p []byte, hopLimit uint8, srcIP netip.Addr, dstIP netip.Addr) IP6
 func (p IP6) SetPayload(b []byte, nextHeader uint8) IP6 {
 	binary.BigEndian.PutUint16(p[4:6], uint16(len(b)))
 	p[6] = nextHeader
-	return p[:len(p)+len(b)]
+	return p[:IP6HeaderLen+len(b)] // header + payload as in the payload length, whatever the length of the view
 }
 
 func (p IP6) AppendPayload(b []byte, nextHeader uint8) (IP6, error) {
-	if b == nil || cap(p)-len(p) < len(b) {
+	if b == nil || cap(p)-IP6HeaderLen < len(b) { // room after the header, whatever the length of the view
 		return nil, ErrPayloadTooBig
 	}
-	p = p[:len(p)+len(b)] // change slice in case slice is less than 40
+	p = p[:IP6HeaderLen+len(b)] // header + payload, as the payload length below
 	binary.BigEndian.PutUint16(p[4:6], uint16(len(b))) // payload length first: Payload() spans it
 	copy(p.Payload(), b)
 	p[6] = nextHeader
